@@ -1244,11 +1244,11 @@ func (p *Prog) subMsgSource(v ssa.Value) (rpc ssa.Value, field string, viaGetter
 
 // rpcConstructedHere: the Rpc (base) is a local allocation whose field `field` is stored in this function nest.
 func (p *Prog) rpcFieldConstructedHere(rpc ssa.Value, field string) bool {
+	if root := p.rootOfBase(rpc); root != nil {
+		return len(p.allocFieldStores(root, field)) > 0
+	}
 	e := p.Origins()
 	if al := e.localAlloc(rpc); al != nil {
-		return len(p.allocFieldStores(al, field)) > 0
-	}
-	if al, ok := rpc.(*ssa.Alloc); ok {
 		return len(p.allocFieldStores(al, field)) > 0
 	}
 	return false
